@@ -18,11 +18,11 @@ import (
 func init() {
 	simkit.Register(&simkit.Prop{
 		ID:   "C11",
-		Desc: "governance ONT balance = sum of recorded total stakes + penalty stakes; withdrawals bounded by deposits and by unfrozen positions",
+		Desc: "governance ONT balance = sum of recorded total stakes + penalty stakes; withdrawals bounded by deposits and by unfrozen positions; every address's total-stake record equals its recorded positions",
 		Rule: "a run = VBFT-type private chain (7 genesis peers with tape-chosen genesis stakes, 3 further candidate nodes, 5 stakers) driven through setup, six admin-committed epochs and 4..60 (thorough: ..120) generated blocks of governance transactions (authorize/unAuthorize/withdraw, register/quit/add-/reduceInitPos, node attributes, fee withdrawal, ONG income, admin: black/white node, parameter/config updates, promise pos, transferPenalty; commitDpos by admin or at the epoch's end; invalid: wrong signer, unknown node, amounts over balance/stake). " +
 			"The genesis block records the peers' initPos as stake without moving ONT; the harness's block 1 sends exactly that amount to the contract (what a private-net operator has to do), so the invariant checked after every block is balanceOf_ONT(governance) + genesisRecorded - plainTransfersIn == sum(TotalStake.Stake) + sum(PenaltyStake.InitPos+AuthorizePos), all read from storage by prefix iteration. " +
 			"Every run starts as real VBFT blocks on the ledger and, at a tape-chosen governance view (1, 3, 7 or 8), continues by executing the same kind of transactions directly with the contract engine on an overlay of the ledger state at a pretended height >= 414100 (below that constant height the contract refuses changeMaxAuthorization and with it every authorization). " +
-			"non-trivial = at least 2 epochs settled and at least one successful withdraw and one successful authorizeForPeer; distinct = distinct event-trace hash",
+			"After every block also, per address: TotalStake record == sum of its six authorize positions on every node + initPos of the nodes it owns (a position that is released twice, or not moved when a node changes between candidate and consensus, breaks it). non-trivial = at least 2 epochs settled and at least one successful withdraw and one successful authorizeForPeer; distinct = distinct event-trace hash",
 		Real:           []string{"smartcontract/service/native/governance (all methods)", "native ONT/ONG, global_params, auth", "core/genesis (VBFT genesis, governance InitConfig)", "core/store/ledgerstore incl. verifyHeader for VBFT headers", "consensus/vbft/config (chain config, consensus payload)", "NeoVM native invoke path"},
 		Stub:           []string{"block producer (harness builds VBFT-style blocks signed by C+1 peers)", "after the warp: block pipeline replaced by direct execution of each transaction with smartcontract.SmartContract (the non-charging path of ledgerstore.HandleInvokeTransaction) on an overlay of the ledger state at a pretended height >= 414100", "disk: in-memory goleveldb storage", "wasm JIT (stub archive)"},
 		Assumptions:    []string{"ONT reaches or leaves the governance address only through governance transactions and the harness's own recorded plain transfers", "deposits/withdrawals per address are taken from the ONT contract's transfer events of successful transactions"},
@@ -80,6 +80,37 @@ func c11Invariant(w *govWorld, s *govState) {
 		c.Fail("ont-balance-vs-recorded-stake", c11Sig(have, want),
 			"h%d: governance ONT balance %d (+%d recorded at genesis, -%d plain transfers in) != total stakes %d + penalty stakes %d (difference %d)",
 			s.Height, s.OntGov, w.genesisRecorded, w.directFunded, st, pn, int64(have)-int64(want))
+	}
+	// per address: the total-stake record equals the positions recorded for it -
+	// its six authorize positions on every node plus the initPos of the nodes it owns
+	pos := map[common.Address]uint64{}
+	for _, ai := range s.Auth {
+		pos[ai.Address] += ai.ConsensusPos + ai.CandidatePos + ai.NewPos + ai.WithdrawConsensusPos + ai.WithdrawCandidatePos + ai.WithdrawUnfreezePos
+	}
+	for _, it := range s.Pool {
+		pos[it.Address] += it.InitPos
+	}
+	var pa []common.Address
+	for a := range pos {
+		pa = append(pa, a)
+	}
+	for a := range s.TotalStake {
+		if _, ok := pos[a]; !ok {
+			pa = append(pa, a)
+		}
+	}
+	sort.Slice(pa, func(i, j int) bool { return bytes.Compare(pa[i][:], pa[j][:]) < 0 })
+	for _, a := range pa {
+		c.Probe("address_positions_checked")
+		if pos[a] != s.TotalStake[a] {
+			sig := "record-exceeds-positions"
+			if pos[a] > s.TotalStake[a] {
+				sig = "positions-exceed-record"
+			}
+			c.Fail("address-stake-record-differs-from-positions", sig,
+				"h%d view %d: %s has a total-stake record of %d ONT but its recorded positions (authorize infos on all nodes + initPos of owned nodes) sum to %d: what it can still take out differs from what it has in",
+				s.Height, s.View, w.nm(a), s.TotalStake[a], pos[a])
+		}
 	}
 	var as []common.Address
 	for a := range w.withdrawn {
